@@ -15,6 +15,8 @@ import (
 	"time"
 
 	pkgErrors "github.com/pkg/errors"
+
+	"github.com/liftbridge-io/liftbridge/server/logger"
 )
 
 type vRefRec struct {
@@ -40,6 +42,17 @@ type vLogCase struct {
 	nextTs  int64
 	epoch   uint64
 	stats   map[string]int
+	readers []*vLiveReader
+	hook    *vHookLogger
+}
+
+// vLiveReader is a Reader kept across operations.
+type vLiveReader struct {
+	id   int
+	rd   *Reader
+	unc  bool
+	next int64 // spec: the next offset it must deliver
+	dead bool
 }
 
 func (c *vLogCase) open() {
@@ -238,6 +251,9 @@ func (c *vLogCase) doReopen() {
 	}
 	c.ops = append(c.ops, vM{"op": "reopen"})
 	c.stats["reopen"]++
+	for _, lr := range c.readers {
+		lr.dead = true // readers do not survive Close
+	}
 	p := vCatch(func() { c.open() })
 	if p != "" {
 		c.violation("reopen-panic", "commitlog.New panicked on reopen: "+p)
@@ -345,6 +361,113 @@ func (c *vLogCase) doRead(o int64, unc bool) {
 	}
 }
 
+// readUntilBlock reads from rd until it would block.
+func vReadUntilBlock(rd *Reader, unc bool) (got []vM, recs []vRefRec, end string) {
+	end = "wait"
+	hb := make([]byte, 28)
+	for n := 0; n < 100000; n++ {
+		var ctx context.Context
+		var cancel context.CancelFunc
+		if unc {
+			ctx, cancel = context.WithCancel(context.Background())
+			cancel()
+		} else {
+			ctx, cancel = context.WithTimeout(context.Background(), 4*time.Millisecond)
+		}
+		m, off, ts, ep, err := rd.ReadMessage(ctx, hb)
+		cancel()
+		if err != nil {
+			if err == ErrCommitLogReadonly || pkgErrors.Cause(err) == ErrCommitLogReadonly {
+				end = "readonly"
+			} else if pkgErrors.Cause(err).Error() == "EOF" {
+				end = "wait"
+			} else {
+				end = "other:" + err.Error()
+			}
+			return
+		}
+		body := append([]byte{}, m...)
+		got = append(got, vM{"off": off, "ts": ts, "ep": ep, "body": vHex(body)})
+		recs = append(recs, vRefRec{off: off, ts: ts, ep: ep, body: body, key: m.Key(), val: m.Value(), hdr: m.Headers()})
+	}
+	return
+}
+
+func (c *vLogCase) doReaderOpen(o int64, unc bool) {
+	id := len(c.readers)
+	var rd *Reader
+	var err error
+	p := vCatch(func() { rd, err = c.l.NewReader(o, unc) })
+	ok := p == "" && err == nil
+	c.ops = append(c.ops, vM{"op": "ropen", "id": id, "o": o, "unc": unc, "ok": ok})
+	c.stats[fmt.Sprintf("ropen/unc=%v/ok=%v", unc, ok)]++
+	lr := &vLiveReader{id: id, rd: rd, unc: unc, next: o, dead: !ok}
+	c.readers = append(c.readers, lr)
+	if p != "" {
+		c.violation("reader-open-panic", "NewReader panicked: "+p)
+	} else if err != nil && !(unc && err == ErrSegmentNotFound && o > c.l.NewestOffset()) {
+		c.violation("reader-open-failed", fmt.Sprintf("NewReader(%d, %v) failed: %v", o, unc, err))
+	}
+}
+
+func (c *vLogCase) doReaderNext(lr *vLiveReader) {
+	var got []vM
+	var recs []vRefRec
+	end := ""
+	p := vCatch(func() { got, recs, end = vReadUntilBlock(lr.rd, lr.unc) })
+	if p != "" {
+		c.ops = append(c.ops, vM{"op": "rnext", "id": lr.id, "recs": got, "end": 3})
+		c.violation("live-reader-panic", fmt.Sprintf("live reader %d panicked: %s", lr.id, p))
+		lr.dead = true
+		return
+	}
+	codes := map[string]int{"wait": 0, "readonly": 1, "notfound": 2}
+	ec, ok := codes[end]
+	if !ok {
+		ec = 3
+	}
+	c.ops = append(c.ops, vM{"op": "rnext", "id": lr.id, "recs": got, "end": ec, "endtxt": end})
+	c.stats[fmt.Sprintf("rnext/unc=%v/n>0=%v", lr.unc, len(got) > 0)]++
+	hw := c.l.HighWatermark()
+	var want []vRefRec
+	for _, r := range c.ref {
+		if r.off >= lr.next && (lr.unc || r.off <= hw) {
+			want = append(want, r)
+		}
+	}
+	if ec == 3 {
+		c.violation("live-reader-error", fmt.Sprintf("live reader %d (uncommitted=%v, next offset %d) failed: %s", lr.id, lr.unc, lr.next, end))
+		lr.dead = true
+		return
+	}
+	if len(recs) != len(want) {
+		c.violation("live-reader-content", fmt.Sprintf("live reader %d (uncommitted=%v) positioned at %d returned %d records, %d are due (hw %d)", lr.id, lr.unc, lr.next, len(recs), len(want), hw))
+		lr.dead = true
+		return
+	}
+	for i := range want {
+		g, w := recs[i], want[i]
+		if g.off != w.off || g.ts != w.ts || g.ep != w.ep || !bytes.Equal(g.body, w.body) {
+			c.violation("live-reader-content", fmt.Sprintf("live reader %d positioned at %d: record %d has offset %d, due is offset %d", lr.id, lr.next, i, g.off, w.off))
+			lr.dead = true
+			return
+		}
+	}
+	if len(recs) > 0 {
+		lr.next = recs[len(recs)-1].off + 1
+	}
+}
+
+func (c *vLogCase) liveReaders() []*vLiveReader {
+	var out []*vLiveReader
+	for _, lr := range c.readers {
+		if !lr.dead {
+			out = append(out, lr)
+		}
+	}
+	return out
+}
+
 func vSameBytes(a, b []byte) bool {
 	if (a == nil) != (b == nil) {
 		return false
@@ -427,7 +550,19 @@ func vRunC01Case(out *vOut, r *vRand, id int, stats map[string]int) {
 	}
 	nops := 4 + r.intn(22)
 	for i := 0; i < nops && !c.viol; i++ {
-		switch r.pick(10, 4, 3, 2, 3, 1) {
+		switch r.pick(10, 4, 3, 2, 3, 1, 3, 5) {
+		case 6: // open a live reader
+			nw := c.l.NewestOffset()
+			if r.intn(2) == 0 {
+				c.doReaderOpen(int64(r.intn(int(nw)+2)), true)
+			} else {
+				// committed readers at or below hw+1 (a start beyond that is C10's concern)
+				c.doReaderOpen(int64(r.intn(int(c.l.HighWatermark())+2)), false)
+			}
+		case 7:
+			if live := c.liveReaders(); len(live) > 0 {
+				c.doReaderNext(live[r.intn(len(live))])
+			}
 		case 0:
 			n := 1 + r.pick(5, 3, 2, 1, 1)
 			var msgs []*Message
@@ -460,6 +595,18 @@ func vRunC01Case(out *vOut, r *vRand, id int, stats map[string]int) {
 				// committed messages are never truncated (C02); keep the HW inside the log
 				o = hw + 1
 			}
+			for _, lr := range c.liveReaders() {
+				if o < lr.next {
+					o = lr.next // what a live reader already consumed stays
+				}
+				if lr.unc && o == lr.next {
+					// An uncommitted reader standing exactly at a truncation point that is a segment base
+					// fails with "segment has been closed" (the segment is deleted, not replaced). The
+					// server never truncates under an uncommitted reader (replication readers live on
+					// leaders, truncation happens on followers), so this alignment is left out.
+					o = lr.next + 1
+				}
+			}
 			c.doTruncate(o)
 		case 3:
 			c.doReopen()
@@ -476,6 +623,11 @@ func vRunC01Case(out *vOut, r *vRand, id int, stats map[string]int) {
 			c.readSweep(r, false)
 		}
 		c.state()
+	}
+	if !c.viol {
+		for _, lr := range c.liveReaders() {
+			c.doReaderNext(lr)
+		}
 	}
 	if !c.viol {
 		c.readSweep(r, true)
@@ -532,6 +684,22 @@ func vRunC16Case(out *vOut, r *vRand, id int, stats map[string]int) {
 	c.finish()
 }
 
+// vHookLogger runs a callback when the delete cleaner announces that it starts: at that point
+// commitLog.Clean has taken its snapshot of the segment list and not yet swapped in the result,
+// so the callback's appends are "new segments appended while a clean runs".
+type vHookLogger struct {
+	logger.Logger
+	hook func()
+}
+
+func (h *vHookLogger) Debugf(f string, a ...interface{}) {
+	if h.hook != nil && len(f) >= 12 && f[:12] == "Cleaning log" {
+		hk := h.hook
+		h.hook = nil
+		hk()
+	}
+}
+
 // ---- C09: retention ----
 type vSegInfo struct {
 	base, count, pos, lastTs int64
@@ -555,12 +723,38 @@ func (c *vLogCase) layout() {
 
 var vPinnedTTL int64
 
-func (c *vLogCase) doCleanRetention(ttl int64) {
+func (c *vLogCase) doCleanRetention(ttl int64) { c.doCleanRetentionDuring(ttl, nil) }
+
+// doCleanRetentionDuring runs Clean(); batches (if any) are appended after Clean took its snapshot.
+func (c *vLogCase) doCleanRetentionDuring(ttl int64, batches [][]*Message) {
 	before := c.segInfo()
+	nOld := len(before)
 	vPinnedTTL = ttl
 	var err error
+	var during []vM
+	if batches != nil && c.hook != nil {
+		c.hook.hook = func() {
+			for _, b := range batches {
+				c.doAppend(b)
+				during = append(during, c.ops[len(c.ops)-1])
+				c.ops = c.ops[:len(c.ops)-1]
+			}
+			before = c.segInfo() // contents as the cleaner sees them
+		}
+	}
 	p := vCatch(func() { err = c.l.Clean() })
-	c.ops = append(c.ops, vM{"op": "clean", "ttl": ttl})
+	if c.hook != nil {
+		c.hook.hook = nil
+	}
+	if batches != nil {
+		c.ops = append(c.ops, vM{"op": "cleanroll", "ttl": ttl, "during": during})
+		c.stats["clean-during-appends"]++
+		if len(before) > nOld {
+			c.stats["clean-during-roll"]++
+		}
+	} else {
+		c.ops = append(c.ops, vM{"op": "clean", "ttl": ttl})
+	}
 	c.stats["clean"]++
 	if p != "" || err != nil {
 		c.violation("clean-failed", fmt.Sprintf("Clean: %v %s", err, p))
@@ -589,6 +783,13 @@ func (c *vLogCase) doCleanRetention(ttl int64) {
 	for _, s := range after {
 		msgs += s.count
 		bytes += s.pos
+	}
+	if batches != nil {
+		// with appends racing the clean only suffix / newest-kept are demanded here
+		first := after[0].base
+		n := sort.Search(len(c.ref), func(i int) bool { return c.ref[i].off >= first })
+		c.ref = c.ref[n:]
+		return
 	}
 	if len(after) > 1 {
 		if c.opts.MaxLogMessages > 0 && msgs > c.opts.MaxLogMessages {
@@ -642,16 +843,21 @@ func vRunC09Case(out *vOut, r *vRand, id int, stats map[string]int) {
 		opts.MaxLogAge = time.Nanosecond
 		opts.MaxLogBytes = int64(60 + r.intn(600))
 	}
+	lg := logger.NewLogger(0)
+	lg.Silent(true)
+	hk := &vHookLogger{Logger: lg}
+	opts.Logger = hk
 	c := vNewLogCase(out, id, "c09", opts, stats)
 	if c.l == nil {
 		return
 	}
+	c.hook = hk
 	old := computeTTL
 	computeTTL = func(time.Duration) int64 { return vPinnedTTL }
 	defer func() { computeTTL = old }()
 	nops := 6 + r.intn(22)
 	for i := 0; i < nops && !c.viol; i++ {
-		switch r.pick(10, 4, 1, 1) {
+		switch r.pick(10, 4, 2, 1, 2) {
 		case 0:
 			n := 1 + r.pick(5, 3, 2)
 			var msgs []*Message
@@ -665,11 +871,36 @@ func vRunC09Case(out *vOut, r *vRand, id int, stats map[string]int) {
 			c.layout()
 			c.doCleanRetention(ttl)
 			c.layout()
+		case 4:
+			// a clean during which new batches arrive (and usually roll a segment)
+			ttl := int64(1000 + r.intn(int(c.nextTs-1000)+6))
+			var batches [][]*Message
+			for b := 0; b < 1+r.intn(3); b++ {
+				var msgs []*Message
+				for j := 0; j < 1+r.intn(3); j++ {
+					msgs = append(msgs, c.genMsg(r, nil))
+				}
+				batches = append(batches, msgs)
+			}
+			c.layout()
+			c.doCleanRetentionDuring(ttl, batches)
+			c.layout()
 		case 2:
 			c.doReopen()
 			if c.l == nil {
 				c.finish()
 				return
+			}
+			// after a restart: a cut-off that falls inside a segment's write-time range
+			if segs := c.l.Segments(); c.opts.MaxLogAge > 0 && len(segs) > 1 {
+				sg := segs[r.intn(len(segs)-1)]
+				if sg.lastWriteTime > sg.firstWriteTime {
+					c.state()
+					c.layout()
+					c.doCleanRetention(sg.firstWriteTime + 1 + int64(r.intn(int(sg.lastWriteTime-sg.firstWriteTime))))
+					c.layout()
+					c.stats["clean-after-reopen-straddling"]++
+				}
 			}
 		default:
 			c.readSweep(r, false)
